@@ -1507,6 +1507,11 @@ func (g *Gen) call(c *ssa.CallCommon, pos token.Pos, isGo bool) Val {
 		for _, s := range g.ct.Sites {
 			if s.Callee == sk && s.Ord == ord {
 				env := g.siteEnv(ci, c, args)
+				if s.Assume {
+					g.assume(env.boolOf(s.C.E))
+					g.assumed = appendUniq(g.assumed, "assumed at a call of "+sk+" in "+shortKey(g.key)+": "+s.C.Src)
+					continue
+				}
 				g.checkNamed("site", sk+"#"+fmt.Sprint(ord)+"."+clauseName(s.C, 0), env.boolOf(s.C.E), "call-site assertion: "+s.C.Src)
 			}
 		}
